@@ -758,13 +758,12 @@ export class ProcGenWrapper {
           let r = 0
           for (let i = 0; i < sortedSlots.length; i += 1) {
             const slotNodes = sortedSlots[i]!.slotNodes!
-            const firstIndex = slotNodes[0]!.parentIndex
-            const lastIndex = slotNodes.findLast((node) => node.parentNode === elem)!.parentIndex
-            if (r !== firstIndex) {
-              if (l >= 0) elem.removeChildren(l, r - l)
-              l = firstIndex
+            if (r !== slotNodes[0]!.parentIndex) {
+              if (r > l) elem.removeChildren(l, r - l)
+              // read the indexes after the removal above: it shifts the nodes behind it
+              l = slotNodes[0]!.parentIndex
             }
-            r = lastIndex + 1
+            r = slotNodes.findLast((node) => node.parentNode === elem)!.parentIndex + 1
           }
           if (l !== r) elem.removeChildren(l, r - l)
         },
